@@ -96,8 +96,13 @@ def _run_shard(cid, shard, idx, wdir, timeout, seed):
                PYTHONPATH=f"{common.VERIF}:{os.environ.get('PYTHONPATH', '')}", PIP_NO_INDEX="1")
     env[common.GUARD] = "1"
     status = "ok"
+    launch = [common.PY, "-m", "vf.worker"]
+    if common.COVERAGE:  # observation of which repository lines the monitored workload reaches (not an oracle)
+        env["COVERAGE_CORE"] = "sysmon"
+        launch = [common.PY, "-m", "coverage", "run", f"--data-file={common.COVERAGE}/cov.{cid}.{idx}",
+                  f"--include={common.REPO}/pdb2pqr/*", "-m", "vf.worker"]
     try:
-        p = subprocess.run([common.PY, "-m", "vf.worker", cid, str(inp), str(out)], cwd=str(common.VERIF), env=env,
+        p = subprocess.run(launch + [cid, str(inp), str(out)], cwd=str(common.VERIF), env=env,
                            timeout=timeout, capture_output=True, text=True)
         if p.returncode != 0:
             status = f"worker exit {p.returncode}: {p.stderr[-800:]}"
